@@ -185,6 +185,11 @@ impl Spec for C10 {
                 }
             }
         }
+        // the last bytes of the address space: a one-byte area on the very last byte, areas that
+        // end exactly at 2^64, and requests that would wrap
+        for (s, l) in [(u64::MAX, 1u64), (u64::MAX - 0xF, 0x10), (u64::MAX - 0xF, 8), (u64::MAX - 0xF, 0x11), (u64::MAX - 0x1F, 0x20)] {
+            ops.push(Op::InitArea { start: s, len: l });
+        }
         for l in [0u64, 1, 0x10, 0x18] {
             ops.push(Op::ZeroAnywhere { len: l });
         }
@@ -361,6 +366,17 @@ impl Spec for C10 {
                         }
                     }
                     Some(k) => {
+                        // an extent that does not fit below 2^64 cannot be had: rejection is the
+                        // only right answer, and it must change nothing
+                        if *new > 0 && (start as u128 + *new as u128) > (1u128 << 64) {
+                            if r.is_ok() {
+                                return Err(div("resize|accepted-wrapping", format!("mem_resize_section({start:#x}, {new:#x}) accepted although the extent wraps the address space")));
+                            }
+                            if crate::emu::fingerprint(ax) != before_fp {
+                                return Err(div("resize|state-changed-on-reject|wrapping", format!("failed mem_resize_section({start:#x}, {new:#x}) changed the machine")));
+                            }
+                            return Ok(None);
+                        }
                         let collide = m.collides(start, *new, Some(k));
                         let cls = if collide { "collides-with-other" } else { "free" };
                         match (collide, r) {
@@ -525,7 +541,7 @@ pub fn run(tier: Tier) -> i32 {
     // the depth bound are not materialised (stexp.rs), which is what made 3 affordable for quick
     let depth = 3;
     let out = run_stexp(Arc::clone(&spec), depth, crate::common::ncpu(), 1 << 30, if tier.is_thorough() { 1500 } else { 45 });
-    st_evidence(&mut run, &out, depth, "mem_init_area / mem_init_zero (7 starts x 7 lengths incl. 0, before/inside/enclosing/abutting/overlapping by exactly one byte), mem_init_zero_anywhere (4 lengths), mem_init_anywhere (3), init_stack (3), mem_resize_section (first 4 non-code areas + absent x 7 sizes), mem_prot (4 masks + invalid), brk(0)/brk(+0x10)/brk(+0x1000) as guest syscalls; 5 initial machines (code at 0x1000 / 0x3000 / 0x400000, generated two-segment ELF, same after init_stack_program_start)");
+    st_evidence(&mut run, &out, depth, "mem_init_area / mem_init_zero (7 starts x 7 lengths incl. 0, before/inside/enclosing/abutting/overlapping by exactly one byte, plus 5 requests on the last 32 bytes of the address space), mem_init_zero_anywhere (4 lengths), mem_init_anywhere (3), init_stack (3), mem_resize_section (first 4 non-code areas + absent x 7 sizes), mem_prot (4 masks + invalid), brk(0)/brk(+0x10)/brk(+0x1000) as guest syscalls; 5 initial machines (code at 0x1000 / 0x3000 / 0x400000, generated two-segment ELF, same after init_stack_program_start)");
     run.cov("initial_machines", json!(spec.inits().iter().map(|i| i.0.clone()).collect::<Vec<_>>()));
     run.guard("states", out.states >= 500, format!("{} states", out.states));
     run.guard("initial-machines", spec.inits().len() >= 4, format!("{} initial machines", spec.inits().len()));
